@@ -12,6 +12,11 @@ any of them breaks — e.g. for an edit of the label numbering, of `remove_lines
 round trip C04 rests on is untouched; C04 must keep building then. Which regenerated literals of `Gen/C02.lean` the
 round trip genuinely depends on is listed in the header of `Lemmas/C02_Export.lean`.
 
+The printer `ren` is asked to print as well-formed NUMBER cells only the numbers that occur IN THE
+TABLE WRITTEN (`hren` below), not every value of the type: a faithful printer of floats prints NaN as
+`nan`, which the reader does not type as a number, so the round trip is claimed for tables without NaN
+(the real `write_out` runs `fillna(0)` on the table first; the quantifier of C04 has finite values only).
+
 Outside the proof stay only the two parameters `ren` (value ↦ printed digits: pandas `round(6)` +
 Python `repr`) and `parse` (digits ↦ value: `pandas.to_numeric`); the cell conversion of the round
 trip is their composition `fun v => parse (C02.cellText (ren v))`. -/
@@ -33,11 +38,12 @@ theorem colsOfNames_names (cols : List SgField) :
 
 /-- a printed cell is typed as a number by the reader iff it was a number: numbers are printed by
 `ren` as number cells, the text cells of the table are no number tokens -/
-theorem renderCell_isNumber (ren : α → C02.Cell) (hren : ∀ v, (ren v).isNumber = true)
-    (c : Cell α) (hc : ∀ s, c = .str s → C02.isNumTok s.toList = false) :
+theorem renderCell_isNumber (ren : α → C02.Cell)
+    (c : Cell α) (hren : ∀ v, c = .num v → (ren v).isNumber = true)
+    (hc : ∀ s, c = .str s → C02.isNumTok s.toList = false) :
     (renderCell ren c).isNumber = c.isNum := by
   cases c with
-  | num v => exact hren v
+  | num v => exact hren v rfl
   | str s => simpa [renderCell, C02.Cell.isNumber, Cell.isNum] using hc s rfl
 
 /-- decoding a printed row with the kinds of its own cells gives the row back, numbers passed
@@ -55,7 +61,7 @@ theorem decode_row (ren : α → C02.Cell) (parse : C02.Word → β) (r : List (
 
 section
 variable (ren : α → C02.Cell) (spec : String) (t : SgTable α)
-  (hren : ∀ v, C02.CellWF (ren v) ∧ (ren v).isNumber = true)
+  (hren : ∀ r ∈ t.rows, ∀ v, Cell.num v ∈ r → C02.CellWF (ren v) ∧ (ren v).isNumber = true)
   (hspec : C02.CellOk spec.toList)
   (hcols : t.cols ≠ []) (hrows : t.rows ≠ [])
   (hlen : ∀ r ∈ t.rows, r.length = t.cols.length)
@@ -75,7 +81,7 @@ theorem renderTable_ok : C02.TBlockOk (renderTable ren spec t) := by
     intro c hc
     obtain ⟨c0, hc0, rfl⟩ := List.mem_map.1 hc
     cases c0 with
-    | num v => exact (hren v).1
+    | num v => exact (hren r0 hr0 v hc0).1
     | str s => exact (htxt r0 hr0 s hc0).1
 
 include hren hrows hlen htxt hkind in
@@ -84,13 +90,13 @@ theorem renderTable_kinds :
     C02.blockKinds C02.isNumTok (renderTable ren spec t).texts = t.cols.map (fun f => f != SgField.halfset) := by
   have hnum : ∀ r ∈ t.rows, ∀ c ∈ r, (renderCell ren c).isNumber = c.isNum := by
     intro r hr c hc
-    exact renderCell_isNumber ren (fun v => (hren v).2) c (fun s hs => (htxt r hr s (hs ▸ hc)).2)
+    exact renderCell_isNumber ren c (fun v hv => (hren r hr v (hv ▸ hc)).2) (fun s hs => (htxt r hr s (hs ▸ hc)).2)
   have hwf : ∀ r ∈ (renderTable ren spec t).rows, ∀ c ∈ r, C02.CellWF c := by
     intro r hr c hc
     obtain ⟨r0, hr0, rfl⟩ := List.mem_map.1 hr
     obtain ⟨c0, hc0, rfl⟩ := List.mem_map.1 hc
     cases c0 with
-    | num v => exact (hren v).1
+    | num v => exact (hren r0 hr0 v hc0).1
     | str s => exact (htxt r0 hr0 s hc0).1
   apply List.ext_getElem
   · simp [C02.blockKinds, renderTable, C02.TBlock.texts]
